@@ -139,6 +139,9 @@ def write_evidence(mod, ctx, results, val, wall, nviol, nknown, ninc):
         'assumptions': meta.get('assumptions', []),
         'wall_s': round(wall, 2), 'violations': nviol,
     }
+    if hasattr(mod, 'extra_evidence'):
+        try: ev['coverage'].update(mod.extra_evidence(ctx))
+        except Exception as e: ev['coverage']['extra_evidence_error'] = str(e)
     os.makedirs(os.path.join(VERIF, 'evidence'), exist_ok=True)
     tmp = os.path.join(VERIF, 'evidence', '%s.json.tmp' % pid)
     json.dump(ev, open(tmp, 'w'), indent=1, default=str); os.replace(tmp, os.path.join(VERIF, 'evidence', '%s.json' % pid))
